@@ -31,11 +31,15 @@ type chunkReader struct {
 	sizes  []int
 	served int // chunks served
 	off    int
-	eff    []int // what each Read really returned (bufio offers at most its free space: a scripted chunk can be cut)
-	cut    bool  // a scripted chunk did not fit
+	ready  chan struct{} // when set: Read waits until it is closed (the parser is registered for panic reports)
+	eff    []int         // what each Read really returned (bufio offers at most its free space: a scripted chunk can be cut)
+	cut    bool          // a scripted chunk did not fit
 }
 
 func (c *chunkReader) Read(p []byte) (int, error) {
+	if c.ready != nil {
+		<-c.ready
+	}
 	if c.off >= len(c.data) {
 		return 0, io.EOF
 	}
@@ -145,8 +149,34 @@ func runOnceEff(data []byte, sizes []int) (string, []int) {
 	return res, nil
 }
 
+// Round 4: a panic of the parser's goroutine (run, or the timer callback) is handed to the harness by the
+// deferred yield points 19 / 39 of the verification build instead of taking the process down: the case ends
+// with the item `!` (FAIL panic) and the check can name the input.
+var panicChans sync.Map // *ansi.Parser → chan string
+
+func installPanicHook() {
+	ansi.VerifSchedHook = func(p *ansi.Parser, point int, pv any) {
+		if pv == nil {
+			return
+		}
+		if v, ok := panicChans.Load(p); ok {
+			select {
+			case v.(chan string) <- fmt.Sprint(pv):
+			default:
+			}
+			return
+		}
+		panic(pv)
+	}
+}
+
 func runOnceR(cr *chunkReader) string {
+	cr.ready = make(chan struct{})
 	p := ansi.NewParser(cr)
+	dead := make(chan string, 1)
+	panicChans.Store(p, dead)
+	defer panicChans.Delete(p)
+	close(cr.ready)
 	var toks []string
 	timeout := time.NewTimer(5 * time.Second)
 	defer timeout.Stop()
@@ -158,6 +188,9 @@ func runOnceR(cr *chunkReader) string {
 			}
 			toks = append(toks, token(seq))
 			p.Finish(seq)
+		case <-dead:
+			toks = append(toks, "!")
+			return strings.Join(toks, " ")
 		case <-timeout.C:
 			toks = append(toks, "hang")
 			return strings.Join(toks, " ")
@@ -658,7 +691,10 @@ func genElement(rng *gen.Rng) (string, string) {
 var interesting = []byte{0x00, 0x07, 0x18, 0x1a, 0x1b, 0x1b, 0x1b, 0x20, 0x2f, 0x30, 0x39, 0x3a, 0x3b, 0x3c, 0x3f, 0x40, 0x4f, 0x50, 0x58,
 	0x5b, 0x5b, 0x5c, 0x5d, 0x5e, 0x5f, 0x60, 0x7e, 0x7f, 0x80, 0x9b, 0x9c, 0xc3, 0xa9, 0xe2, 0x82, 0xac, 0xf0, 0x9f, 0x94, 0xa5, 0xff, 0xef, 0xbf, 0xbd}
 
-func main() { hx.Main("C02", runC02) }
+func main() {
+	installPanicHook()
+	hx.Main("C02", runC02)
+}
 
 func parseOp(op []string) (kase, bool) {
 	if len(op) != 4 || op[0] != "run" {
